@@ -319,9 +319,13 @@ def obligations(tier):
     if tier == "quick":
         hist(2, 1, 2)
     else:
-        for s in (2, 5):
-            hist(s, 2, 2)
-            hist(s, 1, 3)
+        hist(2, 2, 2)
+        hist(2, 1, 3)
+        hist(5, 1, 3)
+        # size 5, two operations: the sequences that start with a move (the others are size-independent bookkeeping)
+        n0 = len(obs)
+        hist(5, 2, 2)
+        obs[n0:] = [o for o in obs[n0:] if o.case["ops"][0][0] == "move"]
     for s in (2, 5) if tier == "thorough" else (2,):
         obs.append(Obligation(f"debump-site-SER-chi1-size{s}", h_debump_site, {"resname": "SER", "anglenum": 0, "size": s}, group="debump-site", time_cap=3000, max_paths=200000))
     if tier == "thorough":
